@@ -487,12 +487,13 @@ type Req struct {
 }
 
 type ReqOpts struct {
-	Methods      []string
-	Biases       []string // pool; nil = all
-	MaxBiases    int
-	Prob         ProbOpts
-	NoProb       bool    // applyProbability always omitted
-	ExtraAltKeys float64 // probability of an undeclared attribute on every alternative
+	Methods        []string
+	Biases         []string // pool; nil = all
+	MaxBiases      int
+	Prob           ProbOpts
+	NoProb         bool    // applyProbability always omitted
+	ExtraAltKeys   float64 // probability of an undeclared attribute on every alternative
+	ExtraWeightKey float64 // probability of a weight for a criterion that is not declared (majority / aspect elimination ignore it)
 }
 
 func problemJSON(p *Problem) (crit []interface{}, known []interface{}) {
@@ -547,6 +548,13 @@ func genRequest(r *Rng, o ReqOpts) *Req {
 	body := J{"preferenceFunction": method, "criteria": crit, "knownAlternatives": known,
 		"choseToMake": append([]string{}, p.Chosen...), "methodParameters": methodParamsJSON(r, method, p),
 		"biasApplyRandomSeed": []int{0, 1, 2, 3, 4, 5, 6, 7}[r.Intn(8)] * r.Intn(12500)}
+	if o.ExtraWeightKey > 0 && (method == "majorityHeuristic" || method == "aspectEliminationHeuristic") && r.chance(o.ExtraWeightKey) {
+		// a stale weight for a criterion the request does not declare: both heuristics and every criteria ordering
+		// ignore it (the weighted criteria are built from the declared criteria)
+		if w, ok := body["methodParameters"].(J)["weights"].(J); ok {
+			w["zz_stale"] = []float64{0.0625, 1.5, 4.75}[r.Intn(3)]
+		}
+	}
 	pool := o.Biases
 	if pool == nil {
 		pool = biasNames
